@@ -301,3 +301,27 @@ def import_formak():
     if p not in sys.path:
         sys.path.insert(0, p)
     os.chdir(FORMAK_REPO)
+
+
+_preloaded = False
+
+
+def preload():
+    """Import the code under test and the heavy third-party modules ONCE, outside any watchdog timer (in the parent before
+    the shards are forked, and again as a no-op at shard start). A SIGALRM that fires in the middle of an import leaves a
+    half-initialised module in sys.modules, and every later case of that shard then fails in the import machinery
+    (seen under heavy machine load: matplotlib's KeyError reported as a FormaK failure — DESIGN §10 item 21)."""
+    global _preloaded
+    if _preloaded:
+        return
+    import_formak()
+    import importlib
+
+    for name in ("mpmath", "numpy", "sympy", "scipy.optimize", "scipy.linalg", "matplotlib.pyplot", "sklearn.base",
+                 "sklearn.model_selection", "formak.exceptions", "formak.common", "formak.ui", "formak.python",
+                 "formak.cpp", "formak.runtime", "formak.ui_state_machine"):
+        try:
+            importlib.import_module(name)
+        except Exception:  # a tree that cannot be imported is reported by the case that needs the module
+            pass
+    _preloaded = True
